@@ -215,3 +215,59 @@ def c05_validate_gt_gate(ctx, v):
             seen += 1
         v.covers_total += 1
         v.covers_sat += 1 if seen else 0
+
+
+def c05_orphan_disturbs_nothing(ctx, v):
+    """Blockchain::add_block offered a block whose parent is not stored and that shares no
+    ancestor with the longest chain (block id, tip id, hashes, genesis period symbolic; real MIR
+    of the body up to the fork-choice comparison): no longest-chain block is taken out of the
+    chain index (BlockRing::on_chain_reorganization(.., false)) on any path.  Decided per class:
+    block id >= tip id must hold; block id < tip id is the listed known finding (the
+    "blocks received out-of-order" edge case disconnects heights id+1..=tip, native reproducer
+    in /verif/known_replays)."""
+    from . import addblock_explore as AB
+    from .run import known_classes
+    known = known_classes("C05", "c05_orphan_disturbs_nothing")
+    r = AB.explore(ctx)
+    ex = r["ex"]
+    v.paths += len(r["outs"])
+    at_or_above = z3.UGE(r["b_id"].bv, r["tip_id"].bv)
+    n = 0
+    reached = 0
+    for o in r["outs"]:
+        if o.kind in ("unsupported", "path-limit"):
+            return v.undecided("%s %s" % (o.kind, o.info))
+        if o.kind == "unwound":
+            # more loop iterations than the bound: only possible when the disconnect range is non-empty
+            v.queries += 1
+            if ex.feasible(o.pc, at_or_above):
+                return v.undecided("disconnect loop longer than the bound for a block at or above the tip")
+            continue
+        if o.kind != "stopped" or not re.search(r"BlockRing::on_chain_reorganization$", str(o.info)):
+            if o.kind == "stopped":
+                reached += 1
+            continue
+        call = [e for e in o.events if e[0] == "call" and re.search(r"BlockRing::on_chain_reorganization$", e[1])][-1]
+        height = call[2][1]
+        rr, m = ex.model_for(o.pc, at_or_above)
+        v.queries += 1
+        if rr == z3.sat:
+            v.fail("a block that arrives before its parent at or above the tip height takes a longest-chain block out of the chain index (block id %d, tip id %d, height disconnected %d)" %
+                   (m.eval(r["b_id"].bv, model_completion=True).as_long(), m.eval(r["tip_id"].bv, model_completion=True).as_long(), m.eval(height.bv, model_completion=True).as_long()),
+                   dict(path=L.trace_text(o, 12)))
+            continue
+        if rr != z3.unsat:
+            return v.undecided("solver: no verdict")
+        n += 1
+        v.queries += 1
+        if ex.feasible(o.pc, z3.Not(at_or_above)):
+            cls = "parentless-block-below-tip-disconnects-chain-index"
+            if cls in known:
+                if ("known:" + cls) not in v.notes:
+                    v.notes.append("known:" + cls)
+            else:
+                v.fail("a block that arrives before its parent below the tip height takes the longest-chain blocks above it out of the chain index (tip height decreases)", dict(cls=cls, path=L.trace_text(o, 12)))
+    if not reached:
+        return v.undecided("the fork-choice comparison was never reached")
+    v.covers_total += 1
+    v.covers_sat += 1 if reached else 0
